@@ -24,16 +24,16 @@ void list_int_push(List_int *list, int64_t value);
 int64_t list_int_pop(List_int *list);
 
 /* Insert an element at the specified index */
-void list_int_insert(List_int *list, int index, int64_t value);
+void list_int_insert(List_int *list, int64_t index, int64_t value);
 
 /* Remove and return the element at the specified index */
-int64_t list_int_remove(List_int *list, int index);
+int64_t list_int_remove(List_int *list, int64_t index);
 
 /* Set the value at the specified index */
-void list_int_set(List_int *list, int index, int64_t value);
+void list_int_set(List_int *list, int64_t index, int64_t value);
 
 /* Get the value at the specified index */
-int64_t list_int_get(List_int *list, int index);
+int64_t list_int_get(List_int *list, int64_t index);
 
 /* Clear all elements from the list */
 void list_int_clear(List_int *list);
